@@ -34,7 +34,8 @@ MANIFEST = {
     "technique": "Lean 4 proof (tree induction, decide over generated tables, history induction) + model/implementation correspondence",
 }
 RULE = ("routing: every subset of the five service types x 4 placements x action-set variants, SCPDs omitting actions "
-        "(exhaustive per facade action over two offered services of a family, random subsets per service), every facade operation "
+        "(exhaustive per facade action over two offered services of a family, random subsets per service), state steps between "
+        "calls and polls (availability flag, subscribe + failed renewal + re-subscribe, unsubscribe, earlier failed calls, repeats), every facade operation "
         "once per gateway (requests recorded by control URL); counters: reading series of length 1..6 per counter over "
         "{increasing, equal, wrapped, negative, absent, SOAP fault, transport error, HTTP error, bad XML} with patched "
         "datetime.now. non-trivial = at least one request was sent (routing) / at least one rate is present or one reading "
@@ -193,11 +194,20 @@ class GwRequester:
             self.svc_by_ctl[f"{BASE}/ctl/{s['cid']}"] = s
         self.posts: List[Tuple[int, str]] = []
         self.responder = default_responder
+        self.fail_subscribe = False
+        self.sids = itertools.count(1)
 
     async def async_http_request(self, method, url, headers=None, body=None):
         await asyncio.sleep(0)
         if method == "GET":
             return 200, {}, self.files[url]
+        if method == "SUBSCRIBE":
+            if self.fail_subscribe:
+                from async_upnp_client.exceptions import UpnpConnectionError
+                raise UpnpConnectionError("scripted: device offline during renewal")
+            return 200, {"sid": f"uuid:sid-{next(self.sids)}", "timeout": "Second-1800"}, ""
+        if method == "UNSUBSCRIBE":
+            return 200, {}, ""
         svc = self.svc_by_ctl[url]
         action = (headers or {}).get("SOAPAction", "").strip('"').split("#")[-1]
         self.posts.append((svc["cid"], action))
@@ -352,16 +362,77 @@ def run(coro):
 
 
 async def build_profile(root: dict):
+    import logging
+    logging.getLogger("async_upnp_client").setLevel(logging.CRITICAL)
     from async_upnp_client.client_factory import UpnpFactory
     from async_upnp_client.profiles.igd import IgdDevice
     req = GwRequester(root)
     device = await UpnpFactory(req).async_create_device(BASE + "/desc.xml")
+    from async_upnp_client.event_handler import UpnpEventHandler
     try:
-        prof = IgdDevice(device, None)
+        prof = IgdDevice(device, UpnpEventHandler(FakeNotifyServer(), req))  # type: ignore[arg-type]
     except Exception as e:  # noqa: BLE001
         from harness.common import exc_token
         return req, None, exc_token(e)
     return req, prof, "ok"
+
+
+class FakeNotifyServer:
+    callback_url = "http://192.0.2.1:8000/notify"
+
+    async def async_start_server(self) -> None:
+        pass
+
+    async def async_stop_server(self) -> None:
+        pass
+
+
+def apply_state(prof, req, step: str) -> str:
+    """state that must not influence routing or the counters: availability flag, subscription history,
+    earlier failed calls.  Returns a short description for the case lines."""
+    from async_upnp_client.exceptions import UpnpConnectionError
+    dev = prof.profile_device
+    if step in ("avail:F", "avail:T"):
+        dev.available = step.endswith("T")
+    elif step == "renewal-fail":
+        # subscribe, one renewal fails with a transport error (the profile marks the device unavailable),
+        # then a successful re-subscribe
+        try:
+            run(prof.async_subscribe_services())
+            req.fail_subscribe = True
+            run(prof._async_resubscribe_services(notify_errors=True))
+            req.fail_subscribe = False
+            run(prof.async_subscribe_services())
+        except Exception as e:  # noqa: BLE001
+            req.fail_subscribe = False
+            return f"{step} exc={type(e).__name__} available={'T' if dev.available else 'F'}"
+    elif step == "unsubscribe":
+        run(prof.async_unsubscribe_services())
+    elif step in ("fault-call", "transport-call"):
+        saved = req.responder
+
+        def bad(svc, action):
+            if step == "fault-call":
+                return 500, {}, SOAP_FAULT
+            raise UpnpConnectionError("scripted transport error")
+        req.responder = bad
+        for m in ("async_get_external_ip_address", "async_get_enabled_for_internet", "async_get_default_connection_service"):
+            try:
+                run(getattr(prof, m)())
+            except Exception:  # noqa: BLE001
+                pass
+        req.responder = saved
+    elif step.startswith("call:"):
+        saved = req.responder
+        req.responder = default_responder
+        try:
+            run(getattr(prof, step[5:])(**call_args(step[5:])))
+        except Exception:  # noqa: BLE001
+            pass
+        req.responder = saved
+    else:
+        return f"unknown-{step}"
+    return f"{step} available={'T' if dev.available else 'F'} subscribed={'T' if prof.is_subscribed else 'F'}"
 
 
 def facade_methods() -> List[str]:
@@ -389,6 +460,10 @@ def run_routing(ctx: Ctx, recipe: Dict[str, Any], cid: str) -> Case:
     if prof is not None:
         methods = facade_methods()
         for m in recipe["ops"]:
+            if isinstance(m, str) and m.startswith("@"):
+                lines.append("state " + apply_state(prof, req, m[1:]))
+                tags.add("state:" + m[1:].split(":")[0])
+                continue
             if m not in methods:
                 continue
             req.posts.clear()
@@ -495,7 +570,7 @@ def run_series(ctx: Ctx, recipe: Dict[str, Any], cid: str) -> Case:
     from async_upnp_client.profiles import igd
     root = make_gateway(recipe["types"], recipe["placement"], recipe["variant"], recipe.get("omit"))
     lines = gateway_lines(root)
-    tags = {f"series:len{len(recipe['ops'])}", f"series:cfg{len(recipe['types'])}"}
+    tags = {f"series:len{sum(1 for o in recipe['ops'] if not isinstance(o, str))}", f"series:cfg{len(recipe['types'])}"}
     real_dt = igd.datetime
     epoch = _dt.datetime(2024, 1, 1)
     clock = {"t": int(recipe["t0"])}
@@ -515,6 +590,11 @@ def run_series(ctx: Ctx, recipe: Dict[str, Any], cid: str) -> Case:
         lines.append(f"t0 {clock['t']}")
         prev_vals, prev_t = None, clock["t"]
         for op in recipe["ops"]:
+            if isinstance(op, str):
+                if op.startswith("@"):
+                    lines.append("state " + apply_state(prof, req, op[1:]))
+                    tags.add("state:" + op[1:].split(":")[0])
+                continue
             t, raws = int(op[0]), list(op[1])
             clock["t"] = t
             script = dict(zip(COUNTER_ACTIONS, raws))
@@ -620,6 +700,8 @@ def exh_series(counter: int, seq) -> List[Any]:
     return ops
 
 
+STATE_STEPS = ["@avail:F", "@avail:T", "@renewal-fail", "@unsubscribe", "@fault-call", "@transport-call"]
+
 SERIES_CFGS = [
     ([T_IP1, T_CIC, T_L3F], "standard", "std"),
     ([T_PPP, T_CIC], "standard", "std"),
@@ -710,6 +792,19 @@ def generate(ctx: Ctx) -> List[Case]:
         jobs.append(({"kind": "routing", "types": types, "placement": ctx.rng.choice(["root", "standard", "wan", "nested"]),
                       "variant": "vendor", "omit": omit, "ops": "ALL"}, f"o{i}"))
         i += 1
+    # state that must not matter: availability flag, failed renewal + re-subscribe, earlier failed calls, repeated calls
+    for r in range(0, 6):
+        for subset in itertools.combinations(FIVE, r):
+            if ctx.thorough or len(subset) in (1, 2, 5) or T_PPP in subset:
+                jobs.append(({"kind": "routing", "types": list(subset), "placement": "standard" if r % 2 else "root",
+                              "variant": "std", "ops": "STATEFUL"}, f"t{i}"))
+                i += 1
+    for _ in range(1500 if ctx.thorough else 60):
+        types = [t for t in FIVE if ctx.rng.randrange(4)]
+        omit = {t: [a for a in std_actions(t, "vendor") if ctx.rng.randrange(4) == 0] for t in types}
+        jobs.append(({"kind": "routing", "types": types, "placement": ctx.rng.choice(["root", "standard", "wan", "nested"]),
+                      "variant": "vendor", "omit": omit, "ops": "RANDSTATE", "opseed": ctx.rng.randrange(2**30)}, f"t{i}"))
+        i += 1
     # exhaustive: every series of length <= k over the six reading kinds on one counter (others steady)
     kinds = ["inc", "eq", "wrap", "neg", "fault", "transport"]
     depth = 4 if ctx.thorough else 3
@@ -723,13 +818,28 @@ def generate(ctx: Ctx) -> List[Case]:
     for _ in range(n_series):
         types, placement, variant = ctx.rng.choice(SERIES_CFGS)
         n = ctx.rng.randrange(1, 7)
+        ops = gen_series(ctx.rng, n)
+        if ctx.rng.randrange(3) == 0:   # state between polls that must not reach the counters
+            for _k in range(ctx.rng.randrange(1, 4)):
+                ops.insert(ctx.rng.randrange(0, len(ops) + 1),
+                           ctx.rng.choice(STATE_STEPS + ["@call:async_get_nat_rsip_status", "@call:async_get_common_link_properties"]))
         jobs.append(({"kind": "series", "types": types, "placement": placement, "variant": variant, "t0": 0,
-                      "ops": gen_series(ctx.rng, n)}, f"s{i}"))
+                      "ops": ops}, f"s{i}"))
         i += 1
     methods = facade_methods()
+    stateful = (list(methods) + ["@avail:F"] + list(methods) + ["@renewal-fail"] + list(methods)
+                + ["@fault-call", "@transport-call"] + list(methods) + ["@avail:T", "@unsubscribe"] + list(methods[:8]))
     for rec, _ in jobs:
         if rec.get("ops") == "ALL":
             rec["ops"] = list(methods)
+        elif rec.get("ops") == "STATEFUL":
+            rec["ops"] = list(stateful)
+        elif rec.get("ops") == "RANDSTATE":
+            r = random.Random(rec.pop("opseed"))
+            ops = []
+            for _ in range(40):
+                ops.append(r.choice(STATE_STEPS) if r.randrange(4) == 0 else r.choice(methods))
+            rec["ops"] = ops
     EXHAUSTIVE[ctx.tier] = False  # the configuration space is enumerated completely; the reading series are a sample
     if ctx.thorough and len(jobs) > 2000:
         nproc = min(16, os.cpu_count() or 2)
